@@ -3,6 +3,7 @@
 package checks
 
 import (
+	faiss "github.com/blevesearch/go-faiss"
 	segment "github.com/blevesearch/scorch_segment_api/v2"
 
 	"verifharness/indep"
@@ -20,4 +21,17 @@ func checkVectorEnvelope(prop, tag string, f *indep.File, want *spec.Obs) *Viola
 
 func vectorSegmentCheck(prop string, seg segment.Segment, want *spec.Obs, where string) *Violation {
 	return nil
+}
+
+func fakeReset()              { faiss.VerifReset() }
+func fakeLive() int64         { return faiss.VerifLive() }
+func fakeOnOp(f func(string)) { faiss.VerifOnOp(f) }
+func fakeOpCount() int64 {
+	var n int64
+	for op, c := range faiss.VerifOpCounts() {
+		if op != "Close" {
+			n += c
+		}
+	}
+	return n
 }
